@@ -4,11 +4,16 @@
 
 package volume
 
+// AD = Previous AD + MFV, starting from 0: the running total of the money flow volume
+//@ stream adS(h stream, l stream, c stream, v stream)[k] = psum(mfvS(h, l, c, v), k + 1)
 //@ func Ad.Compute
 //@ requires consumed(highs) == 0 && consumed(lows) == 0 && consumed(closings) == 0 && consumed(volumes) == 0 && len(highs) == len(lows) && len(highs) == len(closings) && len(highs) == len(volumes)
 //@ ensures[C02] len(result) == max(0, len(highs) - (0))
 //@ ensures[C03] consumed(highs) == len(highs) && consumed(lows) == len(lows) && consumed(closings) == len(closings) && consumed(volumes) == len(volumes) && closed(result)
 //@ ensures[C04] forall kk :: 0 <= kk && kk < len(result) ==> hor(result, kk) <= max(hor(highs, kk + (0)), max(hor(lows, kk + (0)), max(hor(closings, kk + (0)), hor(volumes, kk + (0)))))
+//@ use forall n :: cumsum_char(result, mfvs, n)
+//@ use psum_cong(mfvs, mfvS(highs, lows, closings, volumes), _)
+//@ ensures[C01] "documented" forall k :: 0 <= k && k < len(result) ==> result[k] == adS(highs, lows, closings, volumes)[k]
 
 // Chaikin Money Flow: MFM = ((close - low) - (high - close)) / (high - low), MFV = MFM * volume,
 // CMF = sum of MFV over Period bars / sum of volume over the same bars.
@@ -45,11 +50,19 @@ package volume
 //@ ensures[C03] consumed(highs) == len(highs) && consumed(lows) == len(lows) && consumed(volumes) == len(volumes) && closed(result)
 //@ ensures[C04] forall kk :: 0 <= kk && kk < len(result) ==> hor(result, kk) <= max(hor(highs, kk + (e.IdlePeriod())), max(hor(lows, kk + (e.IdlePeriod())), hor(volumes, kk + (e.IdlePeriod()))))
 
+// FI = EMA(period, (Current - Previous) * Volume), Volume being the volume of the current bar
+//@ stream fiRawS(c stream, v stream)[j] = (c[j+1] - c[j]) * v[j+1]
+// as implemented: the change into bar j+1 is multiplied by the volume of bar j
+//@ stream fiPrevVolS(c stream, v stream)[j] = (c[j+1] - c[j]) * v[j]
 //@ func Fi.Compute
 //@ requires f.Ema.Period >= 1 && consumed(closings) == 0 && consumed(volumes) == 0 && len(closings) == len(volumes)
 //@ ensures[C02] len(result) == max(0, len(closings) - (f.IdlePeriod()))
 //@ ensures[C03] consumed(closings) == len(closings) && consumed(volumes) == len(volumes) && closed(result)
 //@ ensures[C04] forall kk :: 0 <= kk && kk < len(result) ==> hor(result, kk) <= max(hor(closings, kk + (f.IdlePeriod())), hor(volumes, kk + (f.IdlePeriod())))
+//@ step[C01] "raw" forall j :: 0 <= j && j < len(closings) - 1 ==> res(Multiply, 0)[j] == (closings[j+1] - closings[j]) * volumes[j]
+//@ use ema_cong(res(Multiply, 0), fiPrevVolS(closings, volumes), f.Ema.Period, emam(f.Ema), _)
+//@ step[C01] "as-implemented" forall k :: 0 <= k && k < len(result) ==> result[k] == emaS(fiPrevVolS(closings, volumes), f.Ema.Period, emam(f.Ema), k)
+//@ ensures[C01] "documented" forall k :: 0 <= k && k < len(result) ==> result[k] == emaS(fiRawS(closings, volumes), f.Ema.Period, emam(f.Ema), k)
 
 // Money Flow Index: raw money flow = typical price * volume; a bar's flow is positive/negative by the sign of the change
 // of the raw money flow; MFI = 100 - 100 / (1 + sum of positive flows / sum of negative flows) over Period bars.
@@ -101,20 +114,36 @@ package volume
 //@ ensures[C03] consumed(closings) == len(closings) && consumed(volumes) == len(volumes) && closed(result)
 //@ ensures[C04] forall kk :: 0 <= kk && kk < len(result) ==> hor(result, kk) <= max(hor(closings, kk + (1)), hor(volumes, kk + (1)))
 
+// OBV of the previous call of the closure (0 before the first)
+//@ macro obvPrev(f, n) = (n == 0 ? 0 : f.ret(n - 1))
 //@ func Obv.Compute
 //@ requires consumed(closings) == 0 && consumed(volumes) == 0 && len(closings) == len(volumes)
 //@ ensures[C02] len(result) == max(0, len(closings) - (0))
 //@ ensures[C03] consumed(closings) == len(closings) && consumed(volumes) == len(volumes) && closed(result)
 //@ ensures[C04] forall kk :: 0 <= kk && kk < len(result) ==> hor(result, kk) <= max(hor(closings, kk + (0)), hor(volumes, kk + (0)))
+//@ lit#0 invariant previous == (calls == 0 ? 0 : fn.ret(calls - 1))
+//@ lit#0 yields obvPrev(fn, calls) + (arg0 > obvPrev(fn, calls) ? arg1 : (arg0 < obvPrev(fn, calls) ? 0 - arg1 : 0))
+//@ step[C01] "as-implemented" forall k :: 0 <= k && k < len(result) ==> result[k] == (k == 0 ? 0 : result[k-1]) + (closings[k] > (k == 0 ? 0 : result[k-1]) ? volumes[k] : (closings[k] < (k == 0 ? 0 : result[k-1]) ? 0 - volumes[k] : 0))
+//@ ensures[C01] "documented" forall k :: 1 <= k && k < len(result) ==> result[k] == result[k-1] + (closings[k] > closings[k-1] ? volumes[k] : (closings[k] < closings[k-1] ? 0 - volumes[k] : 0))
 
+// VPT = Previous VPT + (Volume * (Current Closing - Previous Closing) / Previous Closing), starting from 0
+//@ stream vptTermS(c stream, v stream)[j] = (c[j+1] - c[j]) / c[j] * v[j+1]
 //@ func Vpt.Compute
 //@ requires consumed(closings) == 0 && consumed(volumes) == 0 && len(closings) == len(volumes)
 //@ ensures[C02] len(result) == max(0, len(closings) - (1))
 //@ ensures[C03] consumed(closings) == len(closings) && consumed(volumes) == len(volumes) && closed(result)
 //@ ensures[C04] forall kk :: 0 <= kk && kk < len(result) ==> hor(result, kk) <= max(hor(closings, kk + (1)), hor(volumes, kk + (1)))
+//@ step[C01] "terms" forall j :: 0 <= j && j < len(closings) - 1 ==> ratios[j] == vptTermS(closings, volumes)[j]
+//@ use forall n :: cumsum_char(result, ratios, n)
+//@ use psum_cong(ratios, vptTermS(closings, volumes), _)
+//@ ensures[C01] "documented" forall k :: 0 <= k && k < len(result) ==> result[k] == psum(vptTermS(closings, volumes), k + 1)
 
 //@ func Vwap.Compute
 //@ requires v.Sum.Period >= 1 && consumed(closings) == 0 && consumed(volumes) == 0 && len(closings) == len(volumes)
 //@ ensures[C02] len(result) == max(0, len(closings) - (v.IdlePeriod()))
 //@ ensures[C03] consumed(closings) == len(closings) && consumed(volumes) == len(volumes) && closed(result)
 //@ ensures[C04] forall kk :: 0 <= kk && kk < len(result) ==> hor(result, kk) <= max(hor(closings, kk + (v.IdlePeriod())), hor(volumes, kk + (v.IdlePeriod())))
+//@ step[C01] "products" forall j :: 0 <= j && j < len(closings) ==> res(Multiply, 0)[j] == mulS(closings, volumes)[j]
+//@ use psum_cong(res(Multiply, 0), mulS(closings, volumes), _)
+//@ use psum_cong(volumesSplice[1], volumes, _)
+//@ ensures[C01] "documented" forall k :: 0 <= k && k < len(result) ==> result[k] == vwmaS(closings, volumes, v.Sum.Period)[k]
